@@ -1954,6 +1954,15 @@ class Mailbox:
         - `flags`: A list of flags to set on this message
         - `date_time`: The internal date on this message
         """
+        # A keyword spelled like the MH sequence of a system flag would turn
+        # in to that system flag (see `store()`).
+        #
+        reserved = [
+            x for x in (flags or []) if x in SYSTEM_FLAG_MAP or x == "unseen"
+        ]
+        if reserved:
+            raise No(f"Reserved keyword(s): {' '.join(reserved)}")
+
         # Make sure we convert the IMAP flags to the accepted mh sequences.
         #
         seqs = flags_to_seqs(flags)
@@ -2545,6 +2554,15 @@ class Mailbox:
 
         if r"\Recent" in flags:
             raise No(r"You can not add or remove the '\Recent' flag")
+
+        # Keywords are stored as MH sequences under their own name, so a
+        # keyword spelled like one of the sequences that stand for a system
+        # flag (`Seen`, `Deleted`, `Recent`, `replied`, ...) or like `unseen`
+        # would silently turn in to that system flag.
+        #
+        reserved = [x for x in flags if x in SYSTEM_FLAG_MAP or x == "unseen"]
+        if reserved:
+            raise No(f"Reserved keyword(s): {' '.join(reserved)}")
 
         if action not in StoreAction:
             raise Bad(f"'{action}' is an invalid STORE action")
